@@ -175,6 +175,25 @@ class Gen:
                 del obj[wire]
         return obj
 
+    def random_obj(self, cls, depth: int = 0) -> Dict[str, Any]:
+        from chuk_mcp.protocol.mcp_pydantic_base import McpPydanticBase
+        o: Dict[str, Any] = {}
+        for attr, wire, ann, req in self.fields(cls):
+            is_disc = typing.get_origin(ann) is typing.Literal
+            if not (req or is_disc or self.rng.random() < 0.5):
+                continue
+            vs = [v for v in self.field_values(cls, attr, ann) if v is not None or ann is typing.Any]
+            if not vs:
+                continue
+            v = self.rng.choice(vs)
+            sub = [a for a in ([ann] + list(typing.get_args(ann))) if inspect.isclass(a) and issubclass(a, McpPydanticBase)]
+            if sub and isinstance(v, dict) and depth < 3 and self.rng.random() < 0.6:
+                v = self.random_obj(self.rng.choice(sub), depth + 1)
+            o[wire] = v
+        if self.rng.random() < 0.2:
+            o.setdefault("x-random-extra", self.rng.choice([None, 1, "s", {"k": [None]}]))
+        return o
+
     def cases_for(self, cls, budget: int, exhaustive_optionals: bool) -> List[Dict[str, Any]]:
         fs = self.fields(cls)
         required = [f for f in fs if f[3] or typing.get_origin(f[2]) is typing.Literal]
@@ -218,6 +237,12 @@ class Gen:
                 if k not in o and k not in {f[1] for f in fs} and k not in {f[0] for f in fs}:
                     o[k] = v
             add(o)
+        # thorough: seeded objects choosing a random value for every required field and for a random half of the
+        # optional ones (value interactions between fields, nested models filled in at random as well)
+        if exhaustive_optionals:
+            for _ in range(budget):
+                add(self.random_obj(cls))
+            budget = budget * 3
         if len(out) > budget:
             head = out[:min(len(out), budget // 2)]
             rest = out[len(head):]
@@ -231,7 +256,7 @@ def build_cases(rng: random.Random, tier: str) -> Tuple[List[Dict[str, Any]], Di
     g = Gen(rng)
     cases: List[Dict[str, Any]] = []
     per_class: Dict[str, int] = {}
-    budget = 40 if tier == "quick" else 400
+    budget = 40 if tier == "quick" else 2000
     for path, cls in sorted(models.items()):
         try:
             objs = g.cases_for(cls, budget, exhaustive_optionals=(tier == "thorough"))
